@@ -358,7 +358,7 @@ def run(ctx):
     need = dict(states_with_processables=50, states_with_run_of_2_or_more=10, adds_at_full_pool=20, adds_at_full_sender=10,
                 adds_on_occupied_nonce=20, reorg_steps_with_invalid_answer=5, op_remove=20)
     low = {k: stats.get(k, 0) for k, v in need.items() if stats.get(k, 0) < v}
-    if low:
+    if not ctx.violations and (low):
         raise Inconclusive("driver did not exercise the interesting cases (vacuous): %s" % low)
     cov = dict(traces_validated_against_impl=stats.get("sequences", 0), samples=samples,
                model_configurations=models, violation_counts=counts, secondary_reports=secondary,
